@@ -206,8 +206,9 @@ func c20tonsq(c *an.Ctx) {
 					return true
 				}
 				for _, cmp := range an.CmpsOnEdge(e) {
-					if cmp.If != nil && cmp.If.Block() == e.From && cmp.Op == token.EQL && lenArgOf(cmp.X) != nil {
-						if k, isC := an.ConstInt(cmp.Y); isC && k == 0 {
+					if cmp.If != nil && cmp.If.Block() == e.From && lenArgOf(cmp.X) != nil {
+						// len(line) == 0, or the false side of len(line) > 0 / len(line) >= 1
+						if k, isC := an.ConstInt(cmp.Y); isC && ((k == 0 && (cmp.Op == token.EQL || cmp.Op == token.LEQ)) || (k == 1 && cmp.Op == token.LSS)) {
 							return true
 						}
 					}
@@ -273,6 +274,22 @@ func c20nsq2nsq(c *an.Ctx) {
 					break
 				}
 				b = b.Preds[0]
+			}
+			if !okEdge {
+				// the call sits behind a merge (`if success { if pool != nil {…}; Finish() }`): what dominates it decides
+				for _, f := range an.FactsAt(fc.Block()) {
+					bo, ok := f.V.(*ssa.BinOp)
+					if !ok || (bo.Op != token.EQL && bo.Op != token.NEQ) || !an.IsNilConst(bo.Y) {
+						continue
+					}
+					if fl, _ := an.LoadedField(an.Strip(bo.X)); fl != nil && fl.Name() == "Error" {
+						truth := f.True
+						if bo.Op == token.NEQ {
+							truth = !truth
+						}
+						okEdge = truth == spec.wantNil
+					}
+				}
 			}
 			if !okEdge {
 				good = false
@@ -421,12 +438,31 @@ func c20nsq2http(c *an.Ctx) {
 		if fn == nil {
 			continue
 		}
-		for _, r := range an.Returns(fn) {
-			if !isSuccessReturn(r) {
-				continue
+		for _, rc := range returnCases(fn, 0) {
+			r := rc.ret
+			// a case that carries an error: a constructed one, or a value a branch on the way found non-nil
+			if !an.IsNilConst(rc.val) {
+				if provablyNonNil(rc.val, r.Block()) {
+					continue
+				}
+				nonNil := false
+				for _, f := range rc.facts {
+					if cmp, ok := f.AsCmp(); ok && cmp.Op == token.NEQ && an.IsNilConst(cmp.Y) && an.SameValue(cmp.X, rc.val) {
+						nonNil = true
+					}
+				}
+				if nonNil {
+					continue
+				}
 			}
 			lo, hi := false, false
-			for _, cmp := range an.CmpsAt(r.Block()) {
+			var cmps []an.Cmp
+			for _, f := range rc.facts {
+				if cmp, ok := f.AsCmp(); ok {
+					cmps = append(cmps, cmp)
+				}
+			}
+			for _, cmp := range cmps {
 				oc, ok := cmp.Oriented(func(x ssa.Value) bool {
 					f, _ := an.LoadedField(an.Strip(x))
 					return f != nil && f.Name() == "StatusCode"
